@@ -163,6 +163,25 @@ func (v *Verifier) evalCall(fr *Frame, st *State, x *ast.CallExpr) Val {
 			}
 		}
 	}
+	if sel, ok := unparen(x.Fun).(*ast.SelectorExpr); ok {
+		if fn, ok := info.Uses[sel.Sel].(*types.Func); ok && fn.FullName() == "encoding/binary.Read" && len(x.Args) == 3 {
+			// binary.Read(r, order, &x): x becomes arbitrary data; the error is unconstrained
+			v.intrinsicsUsed["encoding/binary.Read (the pointee becomes an arbitrary value of its type)"] = true
+			v.eval(fr, st, x.Args[0])
+			pv, isPtr := v.eval(fr, st, x.Args[2]).(PtrVal)
+			if !isPtr || pv.Loc == nil {
+				panic(unsupportedf(x.Pos(), "binary.Read into something other than the address of a variable"))
+			}
+			var wf []*Term
+			nv := v.eng.freshVal(locShape(pv.Loc), "binread", &wf)
+			v.eng.store(st, pv.Loc, nv)
+			for _, w := range wf {
+				st.assume(w)
+			}
+			res := fn.Type().(*types.Signature).Results()
+			return OpaqueVal{Sh: v.eng.shapeOf(res.At(0).Type()), ID: c.Fresh("err", IntSort), Nil: c.Fresh("binread$ok", BoolSort)}
+		}
+	}
 	fv := v.eval(fr, st, x.Fun)
 	switch f := fv.(type) {
 	case TypeRef:
